@@ -1,5 +1,5 @@
 //@unit eea_eia
-//@serves C18
+//@serves C18 C20
 //@source gm-zuc/src/eea.rs
 //@include-spec zuc
 //@section spec
